@@ -314,6 +314,45 @@ def xcem (line : String) : String :=
       verdict rs
     | _, _, _ => "bad-op"
 
+open SharkVerif.Gen.CMAParams in
+/-- `xvdcma`: one-step refinement of `VDCMA::updateStrategyParameters` (constants from the regenerated formulas; the inner
+products and norms go through remora's kernels: toleranced like the CMA trace) -/
+def xvdcma (line : String) : String :=
+  match line.splitOn " | " with
+  | [] => "bad-op"
+  | hdr :: gens =>
+    let fh := parseFields hdr
+    match (field fh "n").toNat?, (field fh "mu").toNat? with
+    | some n, some mu =>
+      let w := normalise ((List.range mu).map fun i => vdcma_rawWeight FF mu i)
+      let k := vdcma_consts FF n (sumSq w)
+      let c : VdConsts Float := { weights := w, muEff := k.muEff, cSigma := k.cSigma, dSigma := k.dSigma, cC := k.cC, c1 := k.c1, cMu := k.cMu }
+      let rs := gens.map fun g =>
+        match g.splitOn " > " with
+        | [b, a] => do
+          let fb := parseFields b; let fa := parseFields a
+          let sc := (field fb "S").splitOn ","
+          let sigma ← (parseBits (sc.headD "")).map Float.ofBits
+          let counter ← (sc.getD 1 "").toNat?
+          let d : Vd Float := { sigma := sigma, counter := counter + 1, mean := ← floats (field fb "M"), pc := ← floats (field fb "PC"),
+                                ps := ← floats (field fb "PS"), D := ← floats (field fb "D"), vn := ← floats (field fb "VN"), normv := ← fnum fb "NV" }
+          let fv ← floats (field fb "F"); let xs ← floats (field fb "X"); let ys ← floats (field fb "Y")
+          let off : List (VdInd Float) := (List.zip fv (List.zip (chunk n xs) (chunk n ys))).map fun (f, x, y) => { point := x, y := y, fitness := f }
+          let sel := vdSelect off mu
+          let d' := vdUpdate FF c n d sel
+          match sel.head? with
+          | some best =>
+            let w := worstOf [("sigma", cmpNum d'.sigma.abs d'.sigma (← fnum fa "S")), ("mean", cmpVec d'.mean (← floats (field fa "M"))),
+              ("pc", cmpVec d'.pc (← floats (field fa "PC"))), ("ps", cmpVec d'.ps (← floats (field fa "PS"))),
+              ("D", cmpVec d'.D (← floats (field fa "D"))), ("vn", cmpVec d'.vn (← floats (field fa "VN"))),
+              ("normv", cmpNum d'.normv.abs d'.normv (← fnum fa "NV")),
+              ("bestPoint", cmpVec best.point (← floats (field fa "BP"))), ("bestValue", cmpNum 0 best.fitness (← fnum fa "BV"))]
+            if w.1 == 2 && hasTies fv && off.length > 16 then some (3, "ties") else some w
+          | none => some (2, "empty")
+        | _ => none
+      verdict rs
+    | _, _ => "bad-op"
+
 def step (line : String) : String :=
   let l := line.trimAscii.toString
   if l.startsWith "xtrace " then xtrace (l.drop 7).toString else
@@ -321,6 +360,7 @@ def step (line : String) : String :=
   if l.startsWith "xecma " then xecma (l.drop 6).toString else
   if l.startsWith "xcmsa " then xcmsa (l.drop 6).toString else
   if l.startsWith "xcem " then xcem (l.drop 5).toString else
+  if l.startsWith "xvdcma " then xvdcma (l.drop 7).toString else
   let toks := (l.splitOn " ").filter (· ≠ "")
   match toks with
   | ["coeffs", kind, n, lambda, mu, rec] =>
